@@ -361,3 +361,21 @@ func (r *Runner) pureIfaceResult(st *State, iface, method string, recv Val, args
 	}
 	return out
 }
+
+// ---------- ghost file model ----------
+// One abstract file per *os.File object: content (bytes), len, pos, synced (durable prefix length).
+
+func fileHeap(st *State, comp string) Term {
+	if comp == "content" {
+		return st.rawHeapGet("F|content", "File_content", ArrOf(SArr))
+	}
+	return st.rawHeapGet("F|"+comp, "File_"+comp, SArr)
+}
+
+// fileRef: the identity of a file value (*os.File, or an interface such as io.Reader holding one).
+func fileRef(f Val) Term {
+	if f.T != nil && isIface(f.T) && len(f.C) == 2 {
+		return f.C[1]
+	}
+	return f.C[0]
+}
